@@ -139,4 +139,15 @@ PROPS = {
         ],
         assumptions=["integers within int64; reals without exponent"],
     ),
+    "C04": dict(
+        gen=[],
+        trusted=[
+            "modelled after the code: core.MergeXRefTables over the tables ParseAllXRefs returns (oldest first, every entry Set in order), reader.GetObject with its object cache, getUncompressedObject (object number check), getCompressedObject / getObjectStream (entry kinds, member index and number check), ClearCache, and the resolution of an indirect /Length through the same reader while the stream is parsed; parseXRefStreamEntry / readBigEndianInt as the field codec",
+            "the byte syntax of cross-reference tables, cross-reference streams, trailers, /Prev chains, object streams and objects is on the implementation's side: the harness writes real files with its own writer (harness/pdfw.go) and hands the model the sections it wrote and what stands at every offset; a parsing error of the implementation therefore shows as a disagreement, it is not excluded by a theorem. Object syntax is C06, stream filters C05",
+            "after the SectionReader fix the file position is no longer part of the reader's state; the model has no shared position",
+            "a length object that is itself a stream with an indirect length makes the implementation recurse; the model answers 'outside the model' there and the cache-transparency theorem assumes it away (lengths_ok); such files are not generated here (C02 owns hostile files)",
+            "NOT modelled: hybrid-reference files (/XRefStm), /Extends chains of object streams, generation numbers (the reader ignores them), FindXRef / startxref scanning, xref reconstruction",
+        ],
+        assumptions=["one startxref chain; sections as written by the harness writer"],
+    ),
 }
